@@ -46,7 +46,7 @@ def file_hash(text):
 
 def unit_residue(unit, gen_dir=None):
     """{repo file: hash of the file without the spans this unit verifies and without test items}"""
-    mp = json.load(open(os.path.join(gen_dir or os.path.join(VERIF, 'gen'), unit + '.map.json')))
+    mp = json.load(open(os.path.join(gen_dir or G.GEN, unit + '.map.json')))
     by_file = {}
     for key, m in mp['functions'].items():
         by_file.setdefault(m['file'], [])
